@@ -262,3 +262,73 @@ class _:
         for l, row in enumerate(A.tolist()):
             if f_linear(shp[::-1], row[::-1]) != l or any(not (0 <= r < d) for r, d in zip(row, shp)):
                 raise Fail("allsubs:row-is-not-UNRAVEL_C", f"{case}: row {l} = {row}")
+
+
+@check("c06.sptenmat_setitem", ["C06", "C04", "C01"], ["pyttb.sptenmat.sptenmat.__setitem__", "pyttb.sptenmat.sptenmat.__init__", "pyttb.sptenmat.sptenmat.double"])
+class _:
+    """Assignments into a sparse matricized tensor, for every stored order of its entries: single new entries that
+    sort before / between / after the stored ones, overwrites, blocks given by lists and slices; afterwards the matrix
+    equals the dense model, is well-formed, and does not depend on the order the entries were stored in."""
+
+    def cases(self, tier, rng):
+        shapes = [((2, 3), [0], [1]), ((3, 2, 2), [0], [1, 2]), ((2, 2, 3), [2, 0], [1])]
+        for tshape, rd, cd in shapes:
+            R = int(np.prod([tshape[i] for i in rd]))
+            C = int(np.prod([tshape[i] for i in cd]))
+            cells = [(i, j) for i in range(R) for j in range(C)]
+            for nst in (0, 1, 2, 3):
+                for trial in range(3 if tier == "quick" else 8):
+                    stored = rng.sample(cells, nst)
+                    vals = [float(rng.choice([-2, -1, 1, 2, 3])) for _ in stored]
+                    free = [c for c in cells if c not in stored]
+                    writes = []
+                    if free:
+                        writes.append(dict(r=min(free)[0], c=min(free)[1], v=7.0))     # sorts early
+                        writes.append(dict(r=max(free)[0], c=max(free)[1], v=-5.0))    # sorts late
+                        mid = free[len(free) // 2]
+                        writes.append(dict(r=mid[0], c=mid[1], v=4.0))
+                    if stored:
+                        writes.append(dict(r=stored[0][0], c=stored[0][1], v=9.0))     # overwrite
+                    writes.append(dict(r=[0, R - 1] if R > 1 else [0], c=[0], v=2.5))   # block by lists
+                    writes.append(dict(r="all", c=C - 1, v=1.5))                          # slice
+                    for w in writes:
+                        yield dict(tshape=list(tshape), rdims=rd, cdims=cd, stored=[list(s) for s in stored], vals=vals, write=w)
+
+    def classify(self, case):
+        w = case["write"]
+        return "block" if isinstance(w["r"], (list, str)) else ("overwrite" if [w["r"], w["c"]] in case["stored"] else "insert")
+
+    def run(self, case):
+        ttb = import_pyttb()
+        tshape, rd, cd = tuple(case["tshape"]), np.array(case["rdims"]), np.array(case["cdims"])
+        R = int(np.prod([tshape[i] for i in rd]))
+        C = int(np.prod([tshape[i] for i in cd]))
+        stored, vals, w = case["stored"], case["vals"], case["write"]
+        rows = list(range(R)) if w["r"] == "all" else (w["r"] if isinstance(w["r"], list) else [w["r"]])
+        cols = w["c"] if isinstance(w["c"], list) else [w["c"]]
+        model = np.zeros((R, C))
+        for (i, j), v in zip(stored, vals):
+            model[i, j] = v
+        for i in rows:
+            for j in cols:
+                model[i, j] = w["v"]
+        key = (slice(None) if w["r"] == "all" else (np.array(w["r"]) if isinstance(w["r"], list) else w["r"]),
+               np.array(w["c"]) if isinstance(w["c"], list) else w["c"])
+        results = []
+        perms = list(itertools.permutations(range(len(stored)))) or [()]
+        for perm in perms:
+            if stored:
+                subs = np.array([stored[k] for k in perm], dtype=int).reshape(len(stored), 2)
+                vv = np.array([[vals[k]] for k in perm], dtype=float)
+                M = ttb.sptenmat(subs, vv, rd.copy(), cd.copy(), tshape, copy=False)
+            else:
+                M = ttb.sptenmat(rdims=rd.copy(), cdims=cd.copy(), tshape=tshape)
+            try:
+                M[key] = w["v"]
+            except Exception as e:
+                raise Fail(f"crash:{type(e).__name__}:{self.classify(case)}", f"{case} stored order {perm}: {e}")
+            got = np.asarray(M.double().todense()) if hasattr(M.double(), "todense") else np.asarray(M.double())
+            if got.shape != model.shape or not same(got, model):
+                raise Fail(f"sptenmat-setitem:{self.classify(case)}", f"{case} stored order {perm}: got {got.tolist()} expected {model.tolist()}")
+            wf_sptenmat(M, "after setitem", zero_free=False)
+            results.append(got)
